@@ -351,6 +351,44 @@ func runC04(c *Check) {
 			"node_modules/pkg2/package.json": `{"name":"pkg2","main":"index.js","sideEffects":false,"type":"module"}`, "node_modules/pkg2/index.js": "import './dep.js'; log('pkg2 body'); export const v = 1;", "node_modules/pkg2/dep.js": "log('opt:pkg2 dep body');"}, nil},
 		{"ignore-annotations", map[string]string{"a.mjs": entry, "b.mjs": c04Module([]string{"function noisy(x) { log('noisy body'); return x } const u1 = /* @__PURE__ */ noisy(log('probe arg'));"})}, func(o *api.BuildOptions) { o.IgnoreAnnotations = true }},
 	}
+	// package.json "sideEffects" arrays: glob patterns x files at several depths. Files that match a pattern must keep
+	// running when imported for their side effects only; files that match none may be dropped (their lines are "opt:").
+	// The expected sets are written out by hand (no second glob implementation).
+	pkgFiles := []string{"dist/a.js", "dist/sub/b.js", "dist/sub/deep/c.js", "other/d.js", "keep.js", "other/keep.js"}
+	globCases := []struct {
+		patterns string
+		kept     []string
+	}{
+		{`["./dist/**"]`, []string{"dist/a.js", "dist/sub/b.js", "dist/sub/deep/c.js"}},
+		{`["dist/**"]`, []string{"dist/a.js", "dist/sub/b.js", "dist/sub/deep/c.js"}},
+		{`["./dist/*.js"]`, []string{"dist/a.js"}},
+		{`["**/keep.js"]`, []string{"keep.js", "other/keep.js"}},
+		{`["keep.js"]`, []string{"keep.js", "other/keep.js"}},
+		{`["./dist/**/*.js"]`, []string{"dist/a.js", "dist/sub/b.js", "dist/sub/deep/c.js"}},
+		{`["./dist/sub/**"]`, []string{"dist/sub/b.js", "dist/sub/deep/c.js"}},
+		{`["./other/d.js"]`, []string{"other/d.js"}},
+		{`["*.js"]`, pkgFiles},
+		{`["./dist/s?b/b.js"]`, []string{"dist/sub/b.js"}},
+		{`["./dist/*/b.js", "./keep.js"]`, []string{"dist/sub/b.js", "keep.js"}},
+		{`["./dist/**/c.js"]`, []string{"dist/sub/deep/c.js"}},
+		{`[]`, nil},
+	}
+	for gi, gc := range globCases {
+		files := map[string]string{"b.mjs": c04Module(nil), "node_modules/gp/package.json": `{"name":"gp","sideEffects":` + gc.patterns + `}`}
+		imports := ""
+		for _, f := range pkgFiles {
+			imports += "import 'gp/" + f + "';\n"
+			tag := "opt:"
+			for _, k := range gc.kept {
+				if k == f {
+					tag = ""
+				}
+			}
+			files["node_modules/gp/"+f] = "log('" + tag + "gp/" + f + " body');"
+		}
+		files["a.mjs"] = imports + entry
+		anns = append(anns, ann{fmt.Sprintf("sideEffects-glob-%d:%s", gi, gc.patterns), files, nil})
+	}
 	for i, a := range anns {
 		c04Run(c, pool, 0, filepath.Join(root, fmt.Sprintf("ann%d", i)), a.files, a.name, a.extra)
 	}
